@@ -161,6 +161,8 @@ def check_one(spec: dict) -> dict:
             viols.append({"sig": f"C06/arrows-{cls}/{feat}", "key": {"feature": feat},
                           "detail": f"dependencies {gdeps} != expected {deps}; text={text!r}"})
     labels = [f"feature={feat}", f"arrowforms={min(len(forms), 3)}", f"components={min(len(comps), 4)}"]
+    if any(ar["a"] == ar["b"] for ar in spec["arrows"]):
+        labels.append("self-arrow")
     return {"violations": viols, "nontrivial": dotted or mixed or len(forms) >= 2, "labels": labels}
 
 
@@ -272,10 +274,13 @@ def diagrams(draw, shared_tokens=False):
             decl = draw(st.sampled_from(DECLS))
         comps.append({"name": nm, "decl": decl, "alias": aliases[i] if "as" in decl else None, "sp": draw(st.integers(1, 3))})
     arrows = []
-    if n >= 2:
+    # a quarter of the diagrams may draw an arrow from a component to itself (the relation drawn is then reflexive there;
+    # it is written like any other arrow, so it belongs to the dependor->dependee relation the parser has to return)
+    self_arrows = draw(st.integers(0, 3)) == 0
+    if n >= 2 or self_arrows:
         pairs = draw(st.lists(st.tuples(st.integers(0, n - 1), st.integers(0, n - 1)), min_size=0, max_size=12))
         for a, b in pairs:
-            if a == b:
+            if a == b and not self_arrows:
                 continue
 
             def ref(c):
